@@ -15,7 +15,8 @@ one() {
     DED="$(echo "$OUT" | grep -E '^VIOLATION' | grep -v 'bounded-' | sed -E 's/.*replay=[^ ]*\/[A-Z0-9]+-//; s/-[0-9a-f]{10}\.json.*//' | sort -u | tr '\n' ' ')"
     BND="$(echo "$OUT" | grep -E '^VIOLATION' | grep 'bounded-' | sed -E 's/.*replay=[^ ]*\/[A-Z0-9]+-bounded-//; s/-[0-9a-f]{10}\.json.*//' | sort -u | tr '\n' ' ')"
     UND="$(echo "$OUT" | grep -c 'UNDECIDED')"
-    echo -e "$NAME\t$V\t$DED\t$BND\tundecided=$UND"
+    ERR="$(echo "$OUT" | grep -c 'ERROR in')"
+    echo -e "$NAME\t$V\t$DED\t$BND\tundecided=$UND errors=$ERR"
   fi
   git -C /repo worktree remove --force "$W" >/dev/null 2>&1; rm -rf "$W"
 }
